@@ -756,6 +756,17 @@ func sameValueD(a, b ssa.Value, d int) bool {
 	case *ssa.BinOp:
 		y, ok := b.(*ssa.BinOp)
 		return ok && x.Op == y.Op && sameValueD(x.X, y.X, d+1) && sameValueD(x.Y, y.Y, d+1)
+	case *ssa.Call:
+		// len/cap of the same value
+		y, ok := b.(*ssa.Call)
+		if !ok {
+			return false
+		}
+		bx, okx := x.Call.Value.(*ssa.Builtin)
+		by, oky := y.Call.Value.(*ssa.Builtin)
+		if okx && oky && bx.Name() == by.Name() && (bx.Name() == "len" || bx.Name() == "cap") {
+			return sameValueD(x.Call.Args[0], y.Call.Args[0], d+1)
+		}
 	}
 	return false
 }
